@@ -129,6 +129,13 @@ def opTy (cls : Option ClassInfo) (n : String) : Ty :=
   | some ci => ci.ops.lookup n
   | none => none
 
+/-- a bare name that is no visible variable but a symbolic constant of the model (`accept_VariableAccessNode`:
+    `cnst_syc(name)` over the constant specifications in scope, in their order): its declared type -/
+def bareConst (c : TCtx) (n : String) : Ty :=
+  match c.consts.find? (fun g => (g.2.lookup n).isSome) with
+  | some g => g.2.lookup n
+  | none => none
+
 /-- `typeOf ctx env sel e` — `sel` is the class `selected` denotes (inside a where clause) -/
 def typeOf (c : TCtx) (env : Env) (sel : Option String) : Expr → Ty
   | .int _ => some "integer"
@@ -141,7 +148,7 @@ def typeOf (c : TCtx) (env : Env) (sel : Option String) : Expr → Ty
     | none => lookup2 c.consts nsp n
   | .var n => match findVar c env n with
     | some v => v.ty
-    | none => none
+    | none => bareConst c n
   | .self => match findVar c env "self" with
     | some v => v.ty
     | none => none
@@ -180,7 +187,8 @@ def kindOf (c : TCtx) (env : Env) : Expr → String
   | .var n => match findVar c env n with
     | some ⟨.inst, _, _⟩ => "V_IRF"
     | some ⟨.iset, _, _⟩ => "V_ISR"
-    | _ => "V_TVL"
+    | some _ => "V_TVL"
+    | none => if (bareConst c n).isSome then "V_SCV" else "V_TVL"
   | .self => "V_IRF"
   | .selected => "V_SLR"
   | .param _ => "V_PVL"
